@@ -24,6 +24,8 @@ OUTS = ['central.drug_amount', 'central.drug_concentration']
 REG1 = dict(dose=2.0, start=0.5, duration=0.25, period=1.0, num=3)
 REG2 = dict(dose=1.0, start=0.0, duration=0.5)
 DATA = dict(obs=[[1.9, 1.2, 0.8], [1.1, 0.6]], times=[[0.5, 1.5, 2.5], [1.0, 2.0]])
+REL = {1: 0.15, 2: 0.9}          # value codes of Purity!cells[..].rel
+BASE_FIX = 0.35
 X_LL = np.array([1.3, 0.9, 0.7, 0.4, 0.3, 0.2])
 PAIRS = [('ll', 'lp_same'), ('ll', 'll'), ('llfix', 'pm'), ('hlp', 'll'), ('fp', 'lp'), ('pm', 'lp'), ('hlp', 'fp')]
 
@@ -33,7 +35,11 @@ def user_models():
     m.set_administration('central', direct=True)
     m.set_dosing_regimen(**REG1)
     m.set_outputs(OUTS)
-    ems = [chi.GaussianErrorModel(), chi.ConstantAndMultiplicativeGaussianErrorModel()]
+    # the first error model arrives as a ReducedErrorModel (relative noise fixed): its mask and value buffer are arrays
+    # that fix_parameters writes IN PLACE -- hidden state that a shallow copy would share with the user's object
+    rem = chi.ReducedErrorModel(chi.ConstantAndMultiplicativeGaussianErrorModel())
+    rem.fix_parameters({'Sigma rel.': REL[1]})
+    ems = [rem, chi.ConstantAndMultiplicativeGaussianErrorModel()]
     obs = [np.array(o) for o in DATA['obs']]
     times = [np.array(t) for t in DATA['times']]
     return dict(mech=m, ems=ems, obs=obs, times=times)
@@ -73,6 +79,20 @@ def build(kind, u, shared=None):
     raise ValueError(kind)
 
 
+def objfix(kind, obj, x):
+    """fix_parameters on the object itself (Purity!PU_ObjFix): the base noise of the first output; returns the new point"""
+    name = OUTS[0] + ' Sigma base'
+    names = list(obj.get_parameter_names())
+    i = names.index(name)
+    obj.fix_parameters({name: BASE_FIX})
+    if list(obj.get_parameter_names()) != names[:i] + names[i + 1:]:
+        raise AssertionError('names after fix_parameters: %r' % (obj.get_parameter_names(),))
+    return np.delete(x, i)
+
+
+CAN_FIX = ('ll', 'llfix', 'pm')
+
+
 def evaluate(kind, obj, x, k):
     with warnings.catch_warnings():
         warnings.simplefilter('error', RuntimeWarning)
@@ -104,8 +124,8 @@ def eff_kind(kind, k):
 _EXPECT = {}
 
 
-def expected(kind, k):
-    key = (kind, eff_kind(kind, k))
+def expected(kind, k, fixed=False):
+    key = (kind, eff_kind(kind, k), fixed)
     if key not in _EXPECT:
         u = user_models()
         if kind == 'lp_same':
@@ -113,6 +133,8 @@ def expected(kind, k):
             obj, x = build('lp_same', u, shared=ll)
         else:
             obj, x = build(kind, u)
+        if fixed:
+            x = objfix(kind, obj, x)
         _EXPECT[key] = evaluate(kind, obj, x, k)
     return _EXPECT[key]
 
@@ -132,6 +154,12 @@ def replay_walk(arg):
     feats = ['pair_%s_%s' % pair]
     if any(s[0] == 'mutate' for s in walk):
         feats.append('with_user_mutation')
+    if any(s[0] == 'mutate' and s[1] == 'emfix' for s in walk):
+        feats.append('with_user_refix')
+    if any(s[0] == 'objfix' for s in walk):
+        feats.append('with_object_fix')
+    for f in feats:
+        cnt['feat_' + f] = 1
 
     def fail(clause, manifestation, detail, step=None):
         fails.append(dict(case=dict(walk=walk if step is None else walk[:step + 1], pair=list(pair)), clause=clause,
@@ -144,6 +172,7 @@ def replay_walk(arg):
         else:
             o2, x2 = build(pair[1], u)
         objs = {1: (pair[0], o1, x1), 2: (pair[1], o2, x2)}
+        objfixed = {1: False, 2: False}
         data_hash = digest([u['obs'][0].tolist(), u['obs'][1].tolist(), u['times'][0].tolist(), u['times'][1].tolist()])
     except Exception as e:
         fail('Construct', type(e).__name__, repr(e))
@@ -160,19 +189,35 @@ def replay_walk(arg):
                         u['mech'].set_dosing_regimen(**REG2)
                     elif op == 'outs':
                         u['mech'].set_outputs([OUTS[0]])
-                    else:
+                    elif op == 'sens':
                         u['mech'].enable_sensitivities(True)
+                    elif op == 'emfix':
+                        # Purity!PU_UserRefix: the user re-fixes the reduced error model he handed over, to another
+                        # value, and fixes its other parameter as well
+                        u['ems'][0].fix_parameters({'Sigma rel.': REL[a], 'Sigma base': 0.77})
                     # the user also renames an error-model parameter and scribbles over the data arrays
-                    u['ems'][0].set_parameter_names(['renamed by user'])
+                    u['ems'][1].set_parameter_names(['renamed by user', 'too'])
                     u['obs'][0][0] += 1.0
                     u['times'][1][-1] += 0.5
                     data_hash = None
                 cnt['mutations'] = cnt.get('mutations', 0) + 1
                 continue
+            if s[0] == 'objfix':
+                o = s[1]
+                kind, obj, x = objs[o]
+                # (a posterior built ON the sibling likelihood object holds that object itself and its prior has a fixed
+                # dimension: fixing the likelihood afterwards is not a legal history for that pair)
+                if kind not in CAN_FIX or objfixed[o] or 'lp_same' in pair:
+                    cnt['objfix_skipped'] = cnt.get('objfix_skipped', 0) + 1
+                    continue
+                objs[o] = (kind, obj, objfix(kind, obj, x))
+                objfixed[o] = True
+                cnt['objfix'] = cnt.get('objfix', 0) + 1
+                continue
             _, o, k = s
             kind, obj, x = objs[o]
             got = evaluate(kind, obj, x, k)
-            exp = expected(kind, k)
+            exp = expected(kind, k, fixed=objfixed[o])
             cnt['evaluations'] = cnt.get('evaluations', 0) + 1
             if got.shape != exp.shape or not np.allclose(got, exp, rtol=1e-9, atol=1e-10):
                 fail('Pure', 'result_depends_on_history', dict(object=kind, evaluation=k, got=got.flatten()[:6].tolist(),
@@ -197,7 +242,7 @@ def replay_walk(arg):
         for o in (1, 2):
             if objs[o][0] == 'pm':
                 continue
-            exp = expected(objs[o][0], 'value')
+            exp = expected(objs[o][0], 'value', fixed=objfixed[o])
             if not np.allclose(res[k], exp, rtol=1e-9, atol=1e-10):
                 fail('ForkEq', 'forked_worker_differs', dict(object=objs[o][0], got=res[k].tolist(), expected=exp.tolist()))
             k += 1
